@@ -376,8 +376,15 @@ let handle (case : string) (out : string) : unit =
     run "C04" "process_image" (c04_monitor_ra conf !obs0 tsteps);
     run "C08" "fcb_retry" (c08_monitor_ra conf tsteps);
     run "C14" "cycle_events" (c14_monitor_ra conf !hs0 tsteps);
+    run "C14" "turn_skipped_on_high_prio" (c14_silent_none_monitor tsteps);
     let conf_end = conf_after conf tsteps in
-    (match c07_monitor_ra conf tsteps with
+    let slowest = int_of_nat (max_ready_delay tsteps) in
+    if has (fun s -> match s.s_in with InClean -> true | _ -> false) then
+      count (Printf.sprintf "dp:tail:slowest-ready-delay:%d" slowest);
+    if has (fun s -> match s.s_in with InTx (_, true) -> true | _ -> false) then count "dp:history:with-high-prio-only-calls";
+    run "C07" "offline_for_answering_station" (c07_no_offline_monitor conf tsteps);
+    (* ready delays <= 2: the monitor of theorem C07_recovery; longer delays: bound + 2 * delay *)
+    (match (if slowest <= 2 then c07_monitor_ra conf tsteps else c07_monitor_slow conf tsteps) with
      | Some (_, code) when int_of_z code = 701 && c07_known_f15 conf_end tsteps -> report_known "C07" "F15" case
      | v -> run "C07" "recovery" v);
     (match c07_cycles_needed conf_end tsteps with
